@@ -227,10 +227,15 @@ theorem extentAcc_eq : ∀ (t : Space ℝ), isCList t = true → ∀ (acc : ℝ)
     split_ifs <;> simp <;> ring
   | _ => intro ht; simp [isCList] at ht
 
-theorem maxExtent_ccons (w : ℝ) (h t : Space ℝ) (ht : isCList t = true) (hw : (eps : ℝ) ≤ w) :
+theorem maxExtent_ccons (w : ℝ) (h t : Space ℝ) (ht : isCList t = true) (hw : 0 < w) :
     maxExtent (.ccons w h t) = w * maxExtent h + maxExtent t := by
-  have hw' : @LE.le ℝ instNumReal.toLE eps w := hw
+  have hw' : @LT.lt ℝ instNumReal.toLT (Num.ofNat 0) w := by simpa using hw
   rw [maxExtent, extentAcc_eq t ht, if_pos hw']; simp
+
+theorem maxExtent_ccons_zero (h t : Space ℝ) (ht : isCList t = true) :
+    maxExtent (.ccons 0 h t) = maxExtent t := by
+  have hw' : ¬ @LT.lt ℝ instNumReal.toLT (Num.ofNat 0) 0 := by simp
+  rw [maxExtent, extentAcc_eq t ht, if_neg hw']; simp
 
 /-- states of a compound -/
 theorem ccons_shape {w : ℝ} {h t : Space ℝ} {a : St ℝ} (ha : inDom (.ccons w h t) a) :
@@ -291,17 +296,19 @@ theorem compound_laws (w : ℝ) (h t : Space ℝ) (hw : 0 < w) (ht : isCList t =
     have := mul_le_mul_of_nonneg_left h1 hw.le
     linarith
 
-theorem compound_extent_step (w : ℝ) (h t : Space ℝ) (hw : (eps : ℝ) ≤ w) (ht : isCList t = true)
+theorem compound_extent_step (w : ℝ) (h t : Space ℝ) (hw : 0 ≤ w) (ht : isCList t = true)
     (Eh : ExtentLaw h) (Et : ExtentLaw t) : ExtentLaw (.ccons w h t) := by
   intro a b ha hb
   obtain ⟨a1, a2, rfl, ha1, ha2⟩ := ccons_shape ha
   obtain ⟨b1, b2, rfl, hb1, hb2⟩ := ccons_shape hb
-  rw [dist_ccons w h t ht, maxExtent_ccons w h t ht hw]
   have h1 := Eh a1 b1 ha1 hb1
   have h2 := Et a2 b2 ha2 hb2
-  have hw0 : (0 : ℝ) ≤ w := le_trans eps_pos.le hw
-  have := mul_le_mul_of_nonneg_left h1 hw0
-  linarith
+  rcases hw.lt_or_eq with hp | rfl
+  · rw [dist_ccons w h t ht, maxExtent_ccons w h t ht hp]
+    have := mul_le_mul_of_nonneg_left h1 hw
+    linarith
+  · rw [dist_ccons 0 h t ht, maxExtent_ccons_zero h t ht]
+    linarith
 
 /-! ### wrappers -/
 theorem wrap_laws_iff (s : Space ℝ) : Laws (.wrap s) ↔ Laws s := by
@@ -355,7 +362,7 @@ theorem compound_metric_aux (sp : Space ℝ) (h : AllLeaves (fun w => 0 < w) Law
   | wrap s ih => exact (wrap_laws_iff s).2 (ih h)
   | _ => exact h
 
-theorem compound_extent_aux (sp : Space ℝ) (h : AllLeaves (fun w => (eps : ℝ) ≤ w) ExtentLaw sp) : ExtentLaw sp := by
+theorem compound_extent_aux (sp : Space ℝ) (h : AllLeaves (fun w => 0 ≤ w) ExtentLaw sp) : ExtentLaw sp := by
   induction sp with
   | cnil => exact cnil_extent
   | ccons w hd tl ih1 ih2 =>
